@@ -218,10 +218,23 @@ def probe_optim(spec):
     else:
         o['bools'] = []
     o['runs'] = []
+    # observe what is handed to the solver (no hook in /repo: cvxpy's Problem.solve is wrapped inside this process)
+    import cvxpy as _cvx
+    seen = {}
+    _orig_solve = _cvx.Problem.solve
+
+    def _spy(self, *a, **k):
+        seen['constraints'] = list(self.constraints)
+        seen['variables'] = self.variables()
+        return _orig_solve(self, *a, **k)
+    _cvx.Problem.solve = _spy
     for kw in opts.get('solvers', [{}]):
         r = {'kw': kw}
         try:
+            seen.clear()
             res = op.optimize(**kw)
+            if seen.get('constraints') is not None and 'translation' not in o:
+                o['translation'] = _dump_translation(seen)
         except Exception as e:
             r['solve'] = 'crash'
             r['error'] = repr(e)[:300]
@@ -237,7 +250,55 @@ def probe_optim(spec):
             r['value'] = float(res.value)
             r['duals'] = dump_duals(res.duals)
         o['runs'].append(r)
+    _cvx.Problem.solve = _orig_solve
     return o
+
+
+def _dump_translation(seen):
+    """constraint groups after the two bound constraints: kind, rows (A as sparse rows, b), and the boolean variable indices"""
+    import scipy.sparse as sp
+    groups = []
+    cons = seen['constraints']
+    out = {'n_constraints': len(cons), 'groups': groups, 'problems': []}
+    for con in cons[2:]:
+        name = type(con).__name__
+        a0, a1 = con.args[0], con.args[1]
+
+        def split(e):
+            # (matrix, None) for  A @ x ;  (None, vector) for a constant
+            if type(e).__name__ == 'MulExpression':
+                return sp.csr_matrix(e.args[0].value), None
+            if type(e).__name__ == 'Constant' or not e.variables():
+                return None, np.atleast_1d(np.asarray(e.value, dtype=float))
+            return None, None
+        m0, c0 = split(a0)
+        m1, c1 = split(a1)
+        if name == 'Equality' and m0 is not None and c1 is not None:
+            kind, A, b = 'EQ', m0, c1
+        elif name == 'Inequality' and m0 is not None and c1 is not None:
+            kind, A, b = 'LE', m0, c1            # A x <= b
+        elif name == 'Inequality' and c0 is not None and m1 is not None:
+            kind, A, b = 'GE', m1, c0            # b <= A x
+        else:
+            out['problems'].append('constraint not understood: ' + name)
+            continue
+        groups.append({'kind': kind, 'rows': dump_rows(A), 'b': [float(v) for v in b]})
+    # bounds: x <= u and l <= x
+    try:
+        out['bound_u'] = [float(v) for v in np.atleast_1d(cons[0].args[1].value)]
+        out['bound_l'] = [float(v) for v in np.atleast_1d(cons[1].args[0].value)]
+    except Exception as e:
+        out['problems'].append('bounds not understood: ' + repr(e)[:80])
+    bools = []
+    for v in seen['variables']:
+        bi = getattr(v, 'boolean_idx', None)
+        if v.attributes.get('boolean') and bi is not None:
+            try:
+                bools += [int(i) for i in np.atleast_1d(bi[0])]
+            except Exception:
+                bools += [int(i[0]) if isinstance(i, tuple) else int(i) for i in bi]
+    out['bools'] = sorted(set(bools))
+    return out
 
 
 # ------------------------------------------------------------------ C18: nodal prices
